@@ -294,7 +294,7 @@ def shard(ctx):
         ctx.sample(stream.sample_of(case))
         for key, msg, wit in vs:
             ctx.violation(key, msg, case.replay_case(), wit)
-        if case.run.error is None:
+        if case.run.complete:
             for key, msg, wit in relational(case, rng, ctx):
                 ctx.violation(key, msg, case.replay_case(blt2=wit.get('blt2')), wit)
 
